@@ -186,7 +186,7 @@ impl C04 {
             }
             Dev::OverCustody => {
                 if k != Kind::TransferCanonical { return None; }
-                if let RMsg::Transfer { amount, .. } = &mut msg { *amount = 501; }
+                if let RMsg::Transfer { amount, .. } = &mut msg { *amount = 21; }
             }
             Dev::TakenId => {
                 if is_transfer { return None; }
@@ -294,7 +294,7 @@ impl Scenario for C04 {
     fn id(&self) -> &'static str { "C04" }
     fn n_configs(&self) -> usize { 1 }
     fn config_label(&self, _: usize) -> String {
-        "ITS with a service-deployed token T1, a canonical token T2 (custody 500), origin chain X trusted".into()
+        "ITS with a service-deployed token T1, a canonical token T2 (custody 20: two conforming releases of 10 empty it exactly), origin chain X trusted".into()
     }
     fn world<'a>(&self, ctx: &'a Ctx) -> &'a World { &ctx.iw.w }
 
@@ -325,7 +325,7 @@ impl Scenario for C04 {
         let t2_id = canonical_token_id("stellar", &iw.sc(&iw.assets[0]));
         // a native seat behind the canonical id too: only a broken tree would deploy a token there
         iw.seat_token(&t2_id);
-        iw.mint_asset(&iw.assets[0], &iw.its, 500);
+        iw.mint_asset(&iw.assets[0], &iw.its, 20);
         (
             Ctx { iw, t1_id, t1, t2_id, d1 },
             Model { advances: 0, trusted: [true, false], executed: vec![], t1_minted: 0, t2_released: 0, app_t1: 0, d1_deployed: false, d1_minter: false },
@@ -448,7 +448,7 @@ impl Scenario for C04 {
                 let fresh = !m.executed.contains(&id);
                 let precond = match k {
                     Kind::Deploy | Kind::DeployWithMinter => !m.d1_deployed,
-                    Kind::TransferCanonical => 500 - m.t2_released >= 10,
+                    Kind::TransferCanonical => 20 - m.t2_released >= 10,
                     _ => true,
                 };
                 let want = conforming_shape && origin_trusted && fresh && precond;
@@ -567,7 +567,7 @@ impl Scenario for C04 {
         out.expect(bal(&ctx.t1, &iw.app) == Some(m.app_t1), "probe.t1-app", || format!("{:?} vs {}", bal(&ctx.t1, &iw.app), m.app_t1));
         out.expect(bal(&ctx.t1, &iw.its) == Some(0), "probe.t1-its", || format!("{:?}", bal(&ctx.t1, &iw.its)));
         let a = &iw.assets[0];
-        out.expect(bal(a, &iw.its) == Some(500 - m.t2_released), "probe.custody", || format!("{:?} vs {}", bal(a, &iw.its), 500 - m.t2_released));
+        out.expect(bal(a, &iw.its) == Some(20 - m.t2_released), "probe.custody", || format!("{:?} vs {}", bal(a, &iw.its), 20 - m.t2_released));
         out.expect(bal(a, u1) == Some(m.t2_released), "probe.t2-u1", || format!("{:?} vs {}", bal(a, u1), m.t2_released));
         // registry
         for (tid, want) in [
